@@ -431,8 +431,12 @@ func random(args []string) {
 	tw, err := vh.NewTraceWriter(*outF)
 	vh.Must(err)
 	res := vh.NewResult()
+	rf := rand.New(rand.NewSource(seed ^ 0x5fa17)) // faults of the collection (faults.go): a source of their own
 	for i := 0; i < *n; i++ {
 		sc := genScenario(r, fmt.Sprintf("r-%s-%d", *scheme, i), r.Intn(5) == 0)
+		if injectFaults(sc, rf) {
+			res.Count("scenarios-with-collection-faults", 1)
+		}
 		classify(res, sc)
 		runScenario(sc, tw, res)
 		if i < 2 {
